@@ -334,7 +334,7 @@ def handle (j : Json) : R Json := do
       | .arr _ => pure true
       | w => do pure (writtenOkB (← parseWritten w).args)
     return Json.mkObj [("offending", Json.bool (offendingB ops c cfg)),
-                       ("hyp", Json.bool (wellFormedB c && wok)),
+                       ("hyp", Json.bool (wellFormedB c && wok && valueTypedB ops c cfg)),
                        ("applied", Json.bool (appliedB ops unitOps glue c cfg o)),
                        ("mainunit", jopt Json.str (mainUnit ops unitOps c cfg)),
                        ("modprops", Json.bool (modPropsB glue c cfg o)),
